@@ -156,6 +156,15 @@ def serialize_moneystr(value):
     return "S:" + value if isinstance(value, str) else value
 
 
+# a SECOND scalar mapped to the same Python type as MoneyStr, with its own (pass-through) functions
+def parse_cents(value):
+    return value
+
+
+def serialize_cents(value):
+    return value
+
+
 def serialize_money(value):
     CALLS.append(("serialize", value))
     return value.raw if isinstance(value, Money) else value
